@@ -5,3 +5,5 @@ import PycommProps.C10
 #print axioms Pycomm.C10.no_unit_data_before_open
 #print axioms Pycomm.C10.fo_order
 #print axioms Pycomm.C10.reopen_works
+#print axioms Pycomm.C10.reachable_idle
+#print axioms Pycomm.C10.reopen_after_any_history
